@@ -18,7 +18,8 @@ What is *inside* the model: the offset arithmetic exactly as the C text performs
 re-basing of a nested record at `rec_offset` and the jump to `rec_offset + size` afterwards, the
 extra align/advance that only `record_new` does), the byte-level stores and loads into the
 `malloc`ed struct buffer (little endian), the descriptor stream consumed with `ip++` /
-`ip += total_count - 1`, and the `prep_vals` flag *as assigned by the C code* (`=` not `|=`).
+`ip += total_count - 1`, and the `prep_vals` flag as the C code computes it (`|=` since the repair
+7f404f9; the pinned `=` variant is kept as `prepValuesPinned`/`ffiExecPinned` for the record).
 
 What is *outside*: libffi. `type->elements[i]->size/alignment` of a struct type are filled in by
 libffi's `ffi_prep_cif`; the model takes them to be `cSize`/`cAlign` (libffi's documented job; the
@@ -470,8 +471,8 @@ structure PRes where
 
 /-- phase 3, the "prepare values" loop: `ptys` = `fd->param_types`, `stack` = the operands popped
 with `sp--` (first parameter on top), `prep` = current `prep_vals`.
-NOTE the record arm ASSIGNS `prep_vals` (vmffi.c: `prep_vals = vm_execute_func_ffi_record_value(…)`),
-forgetting an earlier nil; the model does the same. -/
+The record arm ORs the walk's result into the flag (vmffi.c since 7f404f9:
+`prep_vals |= vm_execute_func_ffi_record_value(…)`), so the flag never goes down. -/
 def prepValues : FTys → Nat → FVals → List Desc → Bool → Option PRes
   | _, 0, _, code, prep => some ⟨prep, [], code⟩
   | .cons t ts, n + 1, .cons v stack, d :: code, prep =>
@@ -490,7 +491,7 @@ def prepValues : FTys → Nat → FVals → List Desc → Bool → Option PRes
         | .record fs =>
           match valueLoop fs cnt inner code (Buf.zero (cSize t)) 0#32 with
           | some r1 =>
-            match prepValues ts n stack r1.code r1.ret with          -- `prep_vals = …` (assignment)
+            match prepValues ts n stack r1.code (prep || r1.ret) with   -- `prep_vals |= …`
             | some r => some { r with args := .struct r1.buf :: r.args }
             | none => none
           | none => none
@@ -499,6 +500,44 @@ def prepValues : FTys → Nat → FVals → List Desc → Bool → Option PRes
         if total = 0 then none
         else
           match prepValues ts n stack (code.drop (total - 1)) true with
+          | some r => some { r with args := .struct (Buf.zero (cSize t)) :: r.args }
+          | none => none
+      | _ => none
+    | .void => none
+    | .other => none
+  | _, _ + 1, _, _, _ => none
+
+/-- HISTORICAL: the "prepare values" loop as it was at the pinned commit 032f4cb (before 7f404f9): `ptys` = `fd->param_types`, `stack` = the operands popped
+with `sp--` (first parameter on top), `prep` = current `prep_vals`.
+NOTE the record arm ASSIGNS `prep_vals` (vmffi.c: `prep_vals = vm_execute_func_ffi_record_value(…)`),
+forgetting an earlier nil; the model does the same. -/
+def prepValuesPinned : FTys → Nat → FVals → List Desc → Bool → Option PRes
+  | _, 0, _, code, prep => some ⟨prep, [], code⟩
+  | .cons t ts, n + 1, .cons v stack, d :: code, prep =>
+    match d with
+    | .prim p =>
+      match scalarArg p v with
+      | some (a, isNil) =>
+        match prepValuesPinned ts n stack code (if isNil then true else prep) with
+        | some r => some { r with args := a :: r.args }
+        | none => none
+      | none => none
+    | .record cnt total =>
+      match v with
+      | .record inner =>
+        match t with
+        | .record fs =>
+          match valueLoop fs cnt inner code (Buf.zero (cSize t)) 0#32 with
+          | some r1 =>
+            match prepValuesPinned ts n stack r1.code r1.ret with          -- `prep_vals = …` (assignment)
+            | some r => some { r with args := .struct r1.buf :: r.args }
+            | none => none
+          | none => none
+        | .prim _ => none
+      | .nilrec =>
+        if total = 0 then none
+        else
+          match prepValuesPinned ts n stack (code.drop (total - 1)) true with
           | some r => some { r with args := .struct (Buf.zero (cSize t)) :: r.args }
           | none => none
       | _ => none
@@ -520,6 +559,23 @@ def ffiExec (count : Nat) (code : List Desc) (stack : FVals) (libOk symOk : Bool
     if !(prepOkF ps && retOk r) then .ffiFail .prepare
     else
       match prepValues ps count stack code false with       -- `machine->ip = ip`
+      | none => .crash
+      | some pr =>
+        if pr.prep then .ffiFail .values
+        else if !libOk then .ffiFail .library
+        else if !symOk then .ffiFail .symbol
+        else .call pr.args r pr.code
+
+/-- HISTORICAL (pinned commit): `vm_execute_func_ffi` up to and including the decision to call: `count` = `code->ffi.count`,
+`code` = the stream after the `FUNC_FFI` opcode, `stack` = operands (top first), `libOk` =
+`dlcache_get_handle` ≠ NULL, `symOk` = `dlsym` ≠ NULL -/
+def ffiExecPinned (count : Nat) (code : List Desc) (stack : FVals) (libOk symOk : Bool) : Outcome :=
+  match parseSig count code with
+  | none => .crash
+  | some (ps, r, _) =>
+    if !(prepOkF ps && retOk r) then .ffiFail .prepare
+    else
+      match prepValuesPinned ps count stack code false with       -- `machine->ip = ip`
       | none => .crash
       | some pr =>
         if pr.prep then .ffiFail .values
